@@ -180,6 +180,7 @@ var valueAtoms = []string{
 	",", ";", "=", "%", " ", "\t", "\"", "\\", "\x00", "\x7f", "\n", "+", "/", ":", "<", ">", "[", "]", "{", "}", "~", "!",
 	"é", "ß", "€", "中", "\u2028", "\u00a0", "\u0085", "\u3000", "\ufffd", "😀", "\U0010ffff", "\U00010000", "\u07ff", "\u0800", "\ud7ff", "\ue000",
 	"%41", "%zz", "%", "%2", "a", "b", "Z", "0", "9", "-", "_", ".",
+	"dGVzdA==", "a=b", "x;y", "1,2", "a+b", "50%", "a b", "==", "k=v;p=q,r=s",
 }
 
 func genValue(r *vgen.Rand) string {
@@ -611,6 +612,68 @@ func main() {
 		// escapes count: every '"' is three bytes
 		addRound([]cMember{{K: "a", V: fill(4000)}, {K: "b", V: strings.Repeat("\"", 1000) + fill(n-4002-2-2-3000-2)}, {K: "c", V: ""}}, "round-limit-total")
 	}
+	// the size limits reached through PROPERTIES: small keys and values, long property lists
+	propsFor := func(target int, base string) []cProp { // properties so that base + ";p.." has exactly target bytes
+		var ps []cProp
+		rest := target - len(base)
+		for i := 0; rest > 0; i++ {
+			name := fmt.Sprintf("p%02d", i)
+			n := 100
+			if rest < 2*(len(name)+2+100) { // last one takes the remainder
+				n = rest - len(name) - 2
+				if n < 0 {
+					n = 0
+				}
+			}
+			ps = append(ps, cProp{K: name, V: fill(n), HasVal: true})
+			rest -= 1 + len(name) + 1 + n
+		}
+		return ps
+	}
+	hdrOf := func(ms []cMember) string { // the header, built here (values without characters to escape)
+		var hs []string
+		for _, m := range ms {
+			h := m.K + "=" + m.V
+			for _, p := range m.Props {
+				h += ";" + p.K
+				if p.HasVal {
+					h += "=" + p.V
+				}
+			}
+			hs = append(hs, h)
+		}
+		return strings.Join(hs, ",")
+	}
+	for _, n := range []int{4095, 4096, 4097} { // one member of n bytes, nearly all of it properties
+		ms := []cMember{{K: "k", V: "v", Props: propsFor(n, "k=v")}}
+		addRound(ms, "round-limit-props")
+		addParse(hdrOf(ms), "parse-limit-props")
+		addParse("a=1,"+hdrOf(ms)+",b=2", "parse-limit-props")
+	}
+	for _, n := range []int{8191, 8192, 8193, 9554} { // three members, each below 4096, n bytes in total
+		a := cMember{K: "a", V: "1", Props: propsFor(3185, "a=1")}
+		b := cMember{K: "b", V: "2", Props: propsFor(3185, "b=2")}
+		c := cMember{K: "c", V: "3", Props: propsFor(n-3185-3185-2, "c=3")}
+		ms := []cMember{a, b, c}
+		addRound(ms, "round-limit-props")
+		addParse(hdrOf(ms), "parse-limit-props")
+	}
+	for _, n := range []int{179, 180, 181} { // one property each
+		var ms []cMember
+		for i := 0; i < n; i++ {
+			ms = append(ms, cMember{K: fmt.Sprintf("k%d", i), V: "v", Props: []cProp{{K: "p", V: fmt.Sprint(i % 9), HasVal: i%3 != 0}}})
+		}
+		addRound(ms, "round-limit-props")
+		addParse(hdrOf(ms), "parse-limit-props")
+	}
+	// property values with '=', ';', ',', '+', '%', blanks
+	addRound([]cMember{{K: "tok", V: "dGVzdA==", Props: []cProp{{K: "b64", V: "dGVzdA==", HasVal: true}, {K: "kv", V: "a=b", HasVal: true},
+		{K: "semi", V: "x;y", HasVal: true}, {K: "comma", V: "1,2", HasVal: true}, {K: "plus", V: "a+b c", HasVal: true}, {K: "pct", V: "50%25 %", HasVal: true},
+		{K: "empty", V: "", HasVal: true}, {K: "flag"}}}}, "round-corpus")
+	for _, h := range []string{"k=v;p=dGVzdA==", "k=dGVzdA==;p=a=b", "k=v;p=a=b;q==;r= = ", "k=v;p=a+b;q=%2B", "k=v;p=x%3By;q=1%2C2", "k=v;p=50%25;q=%20a%20b%20", "k=v;p=a b", "k=v;p=a;b=c,d=e"} {
+		addParse(h, "parse-corpus")
+	}
+
 	// re-serialisation growth at the limits
 	for _, k := range []int{300, 453, 454, 455, 456, 909, 910, 911} {
 		addParse("k="+strings.Repeat("%FF", k), "parse-growth")
